@@ -140,6 +140,11 @@ pub fn run(ctx: &mut Ctx) {
     ctx.rule("prefixes: every truncation point of the seed archives and repository fixtures; subst: every one of the 255 substitute values at every byte outside the entry data of the seeds (headers, central directory, end records); havoc: random multi-site edits, cuts and duplicated chunks; hostile: structure-aware specs whose headers lie (counts/sizes/offsets at 0, 1, 2^16, 2^32, 2^63, 2^64-1 and +-1, AES extra records with and without the encryption flag, method 99 anywhere, encrypted entries shorter than their crypto header), built by the independent builder then field-edited. Each input goes through ZipArchive::new + every accessor + by_index/by_index_raw/by_index_decrypt/by_name(_decrypt) + capped reads, read_zipfile_from_stream with none/partial/full consumption, ZipStreamReader::visit, and ZipWriter::new_append followed by finish and by drop. Oracle: no panic/abort; I/O calls while opening <= 16*len+1e6; peak heap while opening <= 512*len+2MiB. Non-trivial = accepted by at least one opener.");
     ctx.assume("reads are capped at 1 MiB of output per entry so decompression bombs cost bounded work; memory is measured on the Rust heap of the calling thread around ZipArchive::new / new_append only");
     ctx.assume("a loop that never touches the stream would only trip the supervisor's watchdog (exit 2)");
+    if let Some(c) = ctx.replay_case("fuzz_raw") {
+        let bytes = crate::util::unhex(c["bytes"].as_str().unwrap_or("")).unwrap_or_default();
+        ctx.replay_verdict = Some(Verdict::from_result(robust::exercise(&bytes).map(|_| ())));
+        return;
+    }
     let seeds = seeds::small_seeds();
     let mut inputs: Vec<(String, Vec<u8>, Vec<(u64, u64)>)> = seeds.iter().map(|s| (s.name.clone(), s.bytes.clone(), s.data.clone())).collect();
     for (n, b) in seeds::repo_fixtures() {
